@@ -27,9 +27,10 @@ each, the list of its control-flow PATHS as sequences of abstract events:
 The number fast paths build their result as `obj = self.clone(..., retain_cache=True); obj._set_values_(...,
 retain_cache=True)`: these methods (DERIVED) and clone() itself are analysed once more with `obj` as the subject.
 
-`if` contributes both branches, a loop zero, one and two iterations of its body, `try/except` (single-statement
-body, handlers that end in raise) the normal path and one path per handler.  Anything outside this subset - an
-unknown attribute of self being assigned, `self = ...`, try/finally, while/else, with, more than MAX_PATHS paths -
+`if` contributes both branches, a loop zero, one and two iterations of its body, `try/except` the normal path and,
+for every statement of the body that may have raised, one path per handler; `with` its body.  Anything outside
+this subset - an unknown attribute of self being assigned, `self = ...`, try/finally, loop/else, more than
+MAX_PATHS paths -
 raises Untranslatable: the check then reports the broken tie instead of proving facts about stale text.
 
 Output: coq/gen/Gen_effects.v   (Definition gen_table : list fn)."""
@@ -364,20 +365,30 @@ def stmt_paths(st):
             raise Untranslatable('more than %d paths' % MAX_PATHS)
         return out
     if isinstance(st, ast.Try):
-        if st.finalbody or st.orelse:
-            raise Untranslatable('try with finally/else')
-        if len(st.body) != 1:
-            raise Untranslatable('try body with %d statements' % len(st.body))
-        normal = seq(st.body)
-        ev0, _, _ = call_events(st.body[0])
-        failed = [('ECallFailed', e[1]) for e in ev0 if e[0] == 'ECall'] or [('EPure', True)]
-        out = list(normal)
-        for h in st.handlers:
-            for ev, status in seq(h.body):
-                out.append((failed + ev, status))
+        if st.finalbody:
+            raise Untranslatable('try with finally')
+        out = list(seq(st.body + st.orelse))
+        # the exception may come from any statement of the body: the statements before it have run
+        for k, failing in enumerate(st.body):
+            if isinstance(failing, (ast.If, ast.For, ast.While, ast.Try, ast.With)):
+                if k or len(st.body) > 1:
+                    raise Untranslatable('compound statement inside a multi-statement try body')
+                failed = [('EPure', True)]
+            else:
+                ev0, _, _ = call_events(failing)
+                failed = [('ECallFailed', e[1]) for e in ev0 if e[0] == 'ECall'] or [('EPure', True)]
+            for pre, pst in (seq(st.body[:k]) if k else [([], 'go')]):
+                if pst != 'go':
+                    continue
+                for h in st.handlers:
+                    for ev, status in seq(h.body):
+                        out.append((pre + failed + ev, status))
         return out
     if isinstance(st, ast.With):
-        raise Untranslatable('with statement')
+        head = []
+        for item in st.items:
+            head += cond_events(item.context_expr)
+        return [(head + ev, status) for ev, status in seq(st.body)]
     ev, term = simple(st)
     if ev and ev[-1] == ('EBreak',):
         return [(ev[:-1], 'break')]
